@@ -186,6 +186,8 @@ Proof. exact: lines_seen_refuted. Qed.
 
 (* ---- refutations at the instance that is run (coefficients in Z) ---------------------------------------- *)
 Delimit Scope Z_scope with CZ.
+(* a closed equation decided by the VM (checked by the kernel at Qed); avoids normalising the goal's types *)
+Ltac vm_refl := match goal with |- _ = ?b => vm_cast_no_check (@erefl _ b) end.
 (* align_polynomials(q0, q1)[0]: exponents [[0,1],[1,0]], the first column all zero *)
 Definition w_aligned : zparr := ZParr [:: 0%N; 1%N] [::] [:: [:: 0%N; 1%N]; [:: 1%N; 0%N]] [:: [:: 0%CZ]; [:: 1%CZ]].
 
@@ -193,14 +195,14 @@ Theorem C13_pickle_refuted :
   wfb w_aligned /\ (0 < psize w_aligned)%N /\
   pickle_roundtrip dflt_opts shipped_flags w_aligned
   = Ok (ZParr [:: 0%N; 1%N] [::] [:: [:: 1%N; 0%N]] [:: [:: 1%CZ]]).
-Proof. by vm_compute. Qed.
+Proof. by split; [vm_compute | split; [vm_compute | vm_refl]]. Qed.
 
 (* [q0, 2*q0]: a single term *)
 Definition w_single : zparr := ZParr [:: 0%N] [:: 2%N] [:: [:: 1%N]] [:: [:: 1%CZ; 2%CZ]].
 Theorem C13_single_term_witness :
   wfb w_single /\ text_roundtrip dflt_opts false w_single = Err ValueError /\
   text_roundtrip dflt_opts true w_single = Ok w_single.
-Proof. by vm_compute. Qed.
+Proof. by split; [vm_compute | split; vm_refl]. Qed.
 
 (* ---- non-vacuity ------------------------------------------------------------------------------------------ *)
 (* a 2x2 array in q0, q10 with three terms satisfies every guard, and the whole path returns it *)
@@ -209,7 +211,7 @@ Definition w_poly : zparr :=
         [:: [:: 1%CZ; 0%CZ; 0%CZ; (-1)%CZ]; [:: 0%CZ; 1%CZ; 1%CZ; 0%CZ]; [:: 0%CZ; 0%CZ; 0%CZ; 5%CZ]].
 
 Example C13_nonvacuous :
-  [/\ wfb w_poly, (0 < psize w_poly)%N, all (@keep_term ZR) (terms w_poly),
+  [/\ wfb w_poly && (0 < psize w_poly)%N, all (@keep_term ZR) (terms w_poly),
       toks_ok (List.map (encode_row gen_offset) (nrows (rows w_poly))) = true,
       List.Forall (bounded gen_offset) (nrows (rows w_poly)) &
       [/\ pickle_roundtrip dflt_opts shipped_flags w_poly = Ok w_poly,
@@ -218,9 +220,12 @@ Example C13_nonvacuous :
           savetxt_header gen_offset (lit "0.1.0") (lit "# ") w_poly
           = lit "# numpoly:0.1.0 names:q0,q10 keys:;;,<;,=> shape:2,2" ++ newline :: nil]]%list.
 Proof.
-split; try by vm_compute.
-- by repeat constructor; rewrite two32_val; vm_compute.
-- by split; vm_compute.
+split.
+- by vm_compute.
+- by vm_compute.
+- by vm_compute.
+- by rewrite /nrows /=; repeat constructor; rewrite two32_val; vm_compute.
+- by split; vm_refl.
 Qed.
 
 (* a 0-d array and the repaired switches: the header parses *)
